@@ -499,6 +499,23 @@ func (e *specEnv) eval(ex ast.Expr) (sval, error) {
 			}
 		}
 		return sval{}, fmt.Errorf("no field %s in %s", n.Sel.Name, pt.Elem())
+	case *ast.SliceExpr:
+		a, err := e.eval(n.X)
+		if err != nil {
+			return sval{}, err
+		}
+		if a.v.K != vScalar || a.v.T.Sort != SStr || n.Low == nil || n.High == nil || n.Slice3 {
+			return sval{}, fmt.Errorf("only s[lo:hi] on strings is supported in specifications")
+		}
+		lo, err := e.eval(n.Low)
+		if err != nil {
+			return sval{}, err
+		}
+		hi, err := e.eval(n.High)
+		if err != nil {
+			return sval{}, err
+		}
+		return sval{v: scalar(mk(SStr, "str.sub_", a.v.T, e.coerceInt(lo), e.coerceInt(hi))), typ: types.Typ[types.String]}, nil
 	case *ast.IndexExpr:
 		a, err := e.eval(n.X)
 		if err != nil {
@@ -965,6 +982,31 @@ func (e *specEnv) evalCall(n *ast.CallExpr) (sval, error) {
 			return sval{}, err
 		}
 		return sval{v: scalar(mk(SBool, "str.lt_", a.v.T, b.v.T)), typ: boolT}, nil
+	case "sameF": // the same float64 value (NaN is the same as NaN, +0 differs from -0)
+		a, err := arg(0)
+		if err != nil {
+			return sval{}, err
+		}
+		b, err := arg(1)
+		if err != nil {
+			return sval{}, err
+		}
+		at, err := e.coerce(a, b)
+		if err != nil {
+			return sval{}, err
+		}
+		bt, err := e.coerce(b, a)
+		if err != nil {
+			return sval{}, err
+		}
+		return sval{v: scalar(Eq(at, bt)), typ: boolT}, nil
+	case "floor", "ceil":
+		v, err := arg(0)
+		if err != nil {
+			return sval{}, err
+		}
+		mode := map[string]string{"floor": "RTN", "ceil": "RTP"}[name]
+		return sval{v: scalar(mk(SFloat, "fp.roundToIntegral "+mode, v.v.T)), typ: types.Typ[types.Float64]}, nil
 	case "isNaN":
 		v, err := arg(0)
 		if err != nil {
